@@ -67,8 +67,9 @@ Proof. split; [intros g [<-|[<-|[<-|[<-|[]]]]]; vm_compute; discriminate|vm_comp
    the hash map may yield the composites, update_composite_limits terminates without panic and
    its result is the field-wise maximum, over the composites, of the recursive definition
    has_limits (total points, total contours, 1 + deepest component): every composite's limits
-   are below it and each field is attained (or 0).  For the exact arithmetic unconditionally;
-   for the code's u16 sums (release and debug alike) provided no total reaches 65536. *)
+   are below it and each field is attained (or 0).  For the exact arithmetic (Ideal)
+   unconditionally; for the code (Checked: u32 sums narrowed by u16::try_from) provided every
+   total fits in 16 bits — otherwise see composite_limits_overflow_reported. *)
 Theorem composite_limits_eq_recursive : forall (gl : list glyph) m rank pending,
   simple_fits gl -> refs_ok gl -> acyclic gl rank -> mode_ok gl m ->
   (forall g, In g pending <-> is_comp gl g) ->
@@ -79,6 +80,28 @@ Proof.
 Qed.
 Print Assumptions composite_limits_eq_recursive.
 
+(* If some composite's recursive totals do not fit maxp's 16-bit fields, the code reports an
+   error (Error::OutOfBounds) — in every build profile, whatever the hash-map order: it neither
+   wraps nor panics.  (Before the repair recorded in known_findings.txt the u16 sums wrapped in
+   release builds and panicked in debug builds; the harness keeps the 70000-point input and
+   reports key maxp-composite-total-over-u16 should that return.) *)
+Theorem composite_limits_overflow_reported : forall (gl : list glyph) rank pending,
+  simple_fits gl -> refs_ok gl -> acyclic gl rank ->
+  (forall g, In g pending <-> is_comp gl g) ->
+  (exists g, is_comp gl g /\ forall l, has_limits gl g l -> ~ small l) ->
+  update_composite_limits Checked (mx_info (mx_fold mx_init 0%N gl)) pending = LTooBig.
+Proof.
+  intros gl rank pending H1 H2 H3 H4 H5. rewrite limits_run_info0.
+  exact (Proofs.composite_limits_overflow_reported gl rank pending H1 H2 H3 H4 H5).
+Qed.
+Print Assumptions composite_limits_overflow_reported.
+
+(* 100 components of a 700-point glyph: 70000 points in exact arithmetic, an error from the code *)
+Example overflow_witness_reported :
+  (exists o, limits_run Ideal overflow_witness [1%N] = LOk o /\ lo_cpts o = 70000%N)
+  /\ limits_run Checked overflow_witness [1%N] = LTooBig.
+Proof. exact Proofs.overflow_witness_reported. Qed.
+
 (* ... and the recursive definition is a function there, so "the" limits of a glyph make sense *)
 Theorem has_limits_unique : forall gl rank, acyclic gl rank ->
   forall g l l', has_limits gl g l -> has_limits gl g l' -> l = l'.
@@ -88,7 +111,7 @@ Print Assumptions has_limits_unique.
 Example composite_limits_nonvacuous :
   let gl := [GSimple [4; 3]%N (0, 0, 1, 1)%Z; GComposite [0; 0]%N (0, 0, 1, 1)%Z; GEmpty; GComposite [1; 2; 0]%N (0, 0, 1, 1)%Z] in
   simple_fits gl /\ refs_ok gl /\ acyclic gl (fun g => N.to_nat g)
-  /\ update_composite_limits Debug (mx_info (mx_fold mx_init 0%N gl)) [3; 1]%N = LOk (mkLim 21 6 2).
+  /\ update_composite_limits Checked (mx_info (mx_fold mx_init 0%N gl)) [3; 1]%N = LOk (mkLim 21 6 2).
 Proof.
   cbv zeta. split; [|split; [|split]].
   - intros g cs bb E. unfold glyph_at in E. destruct (N.to_nat g) as [|[|[|[|n]]]]; cbn in E; inversion E; subst; [vm_compute; auto|destruct n; discriminate].
@@ -98,18 +121,6 @@ Proof.
       [| |destruct n; discriminate]; cbn in Hx; intuition (subst; cbn; Lia.lia).
   - vm_compute. reflexivity.
 Qed.
-
-(* The faithful u16 arithmetic falsifies the statement: 100 components of a 700-point glyph total
-   70000 points; the release build reports 4464, the debug build panics.  (Re-observed on the real
-   code by the harness under the key maxp-composite-total-over-u16.) *)
-Theorem composite_limits_u16_refuted :
-  exists gl pending,
-    (forall g, In g pending <-> is_comp gl g)
-    /\ (exists o, limits_run Ideal gl pending = LOk o /\ lo_cpts o = 70000%N)
-    /\ (exists o, limits_run Release gl pending = LOk o /\ lo_cpts o = 4464%N)
-    /\ limits_run Debug gl pending = LOverflow.
-Proof. exact Proofs.composite_limits_u16_refuted. Qed.
-Print Assumptions composite_limits_u16_refuted.
 
 (* maxPoints, maxContours, maxComponentElements *)
 Theorem maxp_simple_maxima : forall gl : list glyph,
@@ -213,13 +224,29 @@ Theorem xavg_exact_is_rounded_mean : forall count total, (0 < count)%Z -> (0 <= 
 Proof. exact Proofs.xavg_exact_is_rounded_mean. Qed.
 Print Assumptions xavg_exact_is_rounded_mean.
 
-(* ... but the code divides in f32 (modelled by xavg_f32, which the correspondence run compares
-   with the real value), and that differs from the rounded mean: partial.  No theorem bounds the
-   difference; observed on a real font under the key os2-xavgcharwidth-f32-tie. *)
-Theorem xavg_f32_refuted :
-  exists count total, (0 < count)%Z /\ xavg_f32 count total <> xavg_exact count total.
-Proof. exact Proofs.xavg_f32_refuted. Qed.
-Print Assumptions xavg_f32_refuted.
+(* ... and that is what the code computes: x_avg_char_width divides in a float type and rounds
+   with floor(x + 0.5).  For ANY rounding function of the float type that is monotone and leaves
+   the multiples of 2^-20 below 2^33 unchanged (binary64 round-to-nearest: 53 significant bits),
+   the result is the exactly rounded mean (saturated to i16), for up to 65536 glyphs with u16
+   advances.  Partial in one respect: that the executable model fp_round 53 (which the
+   correspondence run compares with the real xAvgCharWidth of every compiled font) has these two
+   properties is not proved here. *)
+Theorem xavg_exact_for_precise_rounding : forall rnd : Q -> Q,
+  (forall a b, (a <= b)%Q -> (rnd a <= rnd b)%Q) ->
+  (forall j : Z, (0 <= j < 2 ^ 53)%Z -> (rnd (inject_Z j * (1 # 1048576)) == inject_Z j * (1 # 1048576))%Q) ->
+  forall count total : Z,
+  (0 < count <= 65536)%Z -> (0 <= total <= count * 65535)%Z ->
+  xavg_fp rnd count total = sat_i16 (xavg_exact count total).
+Proof. exact Proofs.xavg_fp_exact. Qed.
+Print Assumptions xavg_exact_for_precise_rounding.
+
+(* binary32 is not precise enough (the defect repaired in os2.rs): 515 glyphs, 257 of advance 30001
+   and 258 of 30000 have mean 30000.499..; f32 gave 30001, f64 gives 30000.  The harness keeps
+   this font and reports key os2-xavgcharwidth-f32-tie should the f32 division return. *)
+Example xavg_f32_differs :
+  exists count total, (0 < count)%Z /\ xavg_f32 count total <> xavg_exact count total
+                      /\ xavg_f64 count total = xavg_exact count total.
+Proof. exact Proofs.xavg_f32_differs. Qed.
 
 (* usFirstCharIndex / usLastCharIndex: least and greatest code point, capped at 0xFFFF
    (0xFFFF and 0 for an empty cmap), for any code points including supplementary planes. *)
